@@ -53,7 +53,7 @@ var wantKinds = map[string][]string{
 	"unequal-service-class":           {"std", "iat", "adv", "return", "noc"},
 	"unequal-addenda-counts-control":  {"std", "iat", "adv", "return", "noc"},
 	"unequal-addenda-counts-ctx":      {"std"},
-	"invalid-amounts":                 {"std", "noc"},
+	"invalid-amounts":                 {"std", "return"},
 	"zero-entry-amount":               {"std"},
 	"invalid-check-digit":             {"std", "return", "noc"},
 	"custom-return-codes":             {"return"},
